@@ -63,7 +63,27 @@ STRENGTHENED = {
     "C12-agent5": "first contact: C12 silent, C09 exit 2 (is_parameter_encryption changed its signature). S3 identifies the parameters by role; C12 gained P5 = C09-S2 (nothing is carried over between the pairs of a stream)",
     "C13-agent5": "reported by the target, but through rules that also fire on the repaired commit (bytes_parsed became a plain method, the skip moved to the caller): an architecture-level redistribution that the rules do not follow (section 7)",
     "C14-agent5": "caught from the start, for the right reason only after Q4 stopped accepting str(value) as the value's text form (handle types format symbolically, str() gives the number)",
-    "C15-agent5": "exit 2: the scanner's state representation was rewritten (marker progress as a count, an Enum, a for loop over a helper generator); the transition table cannot be compared (section 7)",
+    "C15-agent5": "not reported: the scanner's state representation was rewritten (marker progress as a count, an Enum, a for loop over a helper generator) and the slip (progress not reset on a mismatch) is a property of the rewritten automaton; since round 6 the transition table is not applied to a scanner in another form (before: exit 2) - section 7",
+    "C01-agent6": "first contact: exit 2 in 5 checks (present_fields() generator, tables keyed by the layout class). N25 fuses a consumer loop into a generator helper, the specialiser reads type-keyed tables, assertions are traced: C01-F reports the encryption cross-check that is evaluated in variants without a session area (the known finding K2 on the same assert would otherwise have hidden it)",
+    "C02-agent6": "first contact: C02 silent (C04 / C16 reported the member value). C02 gained B7 = the NamedRange rule: by_number(n) is the member with value n",
+    "C03-agent6": "caught from the start (R5: the list no longer charges its members in order); the repaired commit needed the ledger's guarded-at-callers discharge (`is_obsolete` tested by the caller instead of caught)",
+    "C04-agent6": "exit 2 in 18 checks: the algorithm types became an IntFlag combined with reduce(or_, ...) and read through a property - the spec model's built-in model of AlgValue / by_type_* no longer applies (section 7)",
+    "C05-agent6": "caught from the start (E3: the boundary test); the repaired commit recognises a message root by `event.type in {Command, Response}`, which E3 now accepts for exactly that set",
+    "C06-agent6": "first contact: reported with false-alarm companions (a mutable set of absent field names). The specialiser tracks constant sets, N24 / N26 expand table subscripts and `.get` into case distinctions; C06-X1 reports the KeyError for a tag outside the table",
+    "C07-agent6": "first contact: reported with false-alarm companions on the overrun_warning(*own_constraints) helper; helpers with *args are inlined now, NI-3 / Y2 report the warning that is built but not yielded",
+    "C08-agent6": "caught from the start (Y3 / the None session area)",
+    "C09-agent6": "first contact: exit 2 (separate_events as index slicing). S5 recognises the index form exactly and checks its two clauses; the `-1` end is reported",
+    "C10-agent6": "first contact: C10 silent, C15 false alarm on the rewritten swtpm scanner. New rule C15-F11 = C10-T7: a character obtained with `next(it, default)` may reach int(..., 16) only where the default was excluded",
+    "C11-agent6": "first contact: reported through a false alarm (is_dataclass instead of the TypeError of fields()). A3 treats both as the same test; the `not value` test is reported for the empty session area",
+    "C12-agent6": "first contact: C12 silent. C12 gained P4: the result of a memoised function is shared - a caller must not mutate it",
+    "C13-agent6": "caught from the start (A1: the consumed byte instead of the look-ahead byte); the repaired commit's `sent = lookahead` copy needed alias resolution in the pump analysis",
+    "C14-agent6": "first contact: reported only through false alarms. C14 gained Q8: the byte buffer's translation table, folded by the mini interpreter, maps every byte to printable ASCII (control characters would break the row)",
+    "C15-agent6": "first contact: reported with false-alarm companions (dispatch table, chain(), slice constants). N23 / N24 and slice constants in the normaliser; F5 reports the `<=` runt test",
+    "C16-agent6": "exit 2 in 6 checks: tpm_enum's internals were rearranged (shared metaclass, _find(), one text function attached under three names) - the model guards G4 / O4 are stated over the original arrangement (section 7)",
+    "C17-agent6": "first contact: exit 2 (string slicing of the bit text). The mini interpreter concatenates / slices / repeats symbolic text; M2 reports the empty row of the field at bit 0",
+    "C18-agent6": "first contact: exit 2 (`_field(mask)` helper, division by the lowest set bit). The classification walker evaluates helper functions and methods symbolically and treats division by a power of two as a shift; N1 reports the 256 codes named from six bits",
+    "C19-agent6": "first contact: C19 silent. C19 gained L8: cc_name folded over all 117 command codes must give the member's name (lstrip strips a character set)",
+    "C20-agent6": "caught from the start (snapshot); the repaired commit needed dict unpacking with override in the spec model",
     "C16-agent5": "first contact: exit 2 in 6 checks (`__init_subclass__` hook deriving the value sets). The spec model now runs such hooks; the slip (hasattr instead of vars) is reported by the snapshot",
     "C17-agent5": "first contact: exit 2 (the accessor class moved and was renamed). The parts of tpm_bitfield are located by role; M2 gained: attributes() must not iterate a generator created once at decoration time",
     "C18-agent5": "first contact: exit 2 (`if not code`). The classification walker decides the truthiness of masked locals; N1 reports the codes whose number is 0",
